@@ -415,7 +415,7 @@ func subRequestVars(subs []sx.S) (string, map[string]interface{}) {
 		if sx.Int(sl[1])%3 == 0 && !c19Share {
 			// one more field under a variable that differs between the subscribers of this shape
 			fmt.Fprintf(&head, ", $k%d: Boolean", i)
-			vars[fmt.Sprintf("k%d", i)] = sx.Int(sl[1])%6 == 0
+			vars[fmt.Sprintf("k%d", i)] = sx.Int(sl[1])%4 < 2 // differs between uids of one parity: their requests are one text
 			fmt.Fprintf(&body, " k @include(if: $k%d)", i)
 		}
 		body.WriteString(" }")
